@@ -45,3 +45,6 @@ pub use handles::{AsyncCache, Cache};
 pub use listener::{EvictionListener, EvictionReason};
 pub use metrics::MetricsSnapshot;
 pub use runtime::TaskSpawner;
+/// Virtual clock (only with `RUSTFLAGS="--cfg excsn_fibre_verif"`).
+#[cfg(excsn_fibre_verif)]
+pub use time::verif_clock;
